@@ -199,8 +199,9 @@ def gen_item(job):
     """All generator runs of one grammar item (runs in a worker process)."""
     gen, genbin, gdir, mod, scdir, rots, e = job
 
-    def gen_once(e, r, target, with_pkgroot=False):
-        os.makedirs(target, exist_ok=True)
+    def gen_once(e, r, target, with_pkgroot=False, make=True):
+        if make:
+            os.makedirs(target, exist_ok=True)
         for rel in e.get("Files") or []:
             p = os.path.join(target, e["PkgRoot"], rel) if with_pkgroot else os.path.join(target, rel)
             os.makedirs(os.path.dirname(p), exist_ok=True)
@@ -287,6 +288,19 @@ def gen_item(job):
                 res["fails"].append(("user-files", "user file %s was removed or changed by a generation (generator exit %d)" % (re.sub(r"^.*?/(?=[^/]+\.gr\.go/)", "<pkg>/", rel), rc)))
                 break
         rmtree(t)
+    # a target that does not exist yet, two levels below a directory that does not exist either
+    if not res["fails"] and not (e.get("Files") or []):
+        top = os.path.join(scdir, "missing-%s-%s" % (gen, e["Dir"]))
+        t = os.path.join(top, "not", "there", "out")
+        rc, out = gen_once(e, rots[0], t, make=False)
+        res["runs"] += 1
+        if rc != 0:
+            res["fails"].append(("missing-target", "generating into a target whose parents do not exist exits %d: %s" % (rc, norm_gen_msg(out))))
+        else:
+            hm, nm = tree_hash(t) if os.path.isdir(t) else ("", 0)
+            if hm != h0:
+                res["fails"].append(("missing-target", "the tree generated into a target that did not exist differs from the one generated into an existing directory (%d vs %d files)" % (nm, n0)))
+        rmtree(top)
     # v2: the package-root layout must hold the same tree below <outdir>/<packageRoot>
     if gen == "v2" and not res["fails"]:
         t = os.path.join(scdir, "pkgroot-%s-%s" % (gen, e["Dir"]))
@@ -301,6 +315,40 @@ def gen_item(job):
             if hp != h0:
                 res["fails"].append(("package-root-layout", "the tree generated below <outdir>/<packageRoot> differs from the flat one: %s" % (first_diff(target0, sub) if os.path.isdir(sub) else "directory missing")))
         rmtree(t)
+    # v2: a second schema set that depends on this one through the manifest this generation wrote: a record in
+    # another package root using every typeref of the set (custom ones are only known as such through that
+    # manifest). Generated below the item's directory, so that it is compiled and vetted with it.
+    if gen == "v2" and not res["fails"] and (e.get("Files") or []):
+        written = os.path.join(target0, "go-restli-manifest.gr.json")
+        try:
+            first = json.load(open(os.path.join(gdir, e["Dir"], "manifest.json")))
+            refs = []
+            for dt in first.get("inputDataTypes", []):
+                if "typeref" in dt:
+                    refs.append((dt["typeref"]["name"], dt["typeref"]["namespace"]))
+            if refs and os.path.isfile(written):
+                fields = []
+                for i, (n, ns) in enumerate(sorted(refs)):
+                    fields.append({"name": "f%d" % i, "doc": "", "type": {"reference": {"name": n, "namespace": ns}}, "isOptional": i % 2 == 1})
+                    fields.append({"name": "l%d" % i, "doc": "", "type": {"array": {"reference": {"name": n, "namespace": ns}}}, "isOptional": True})
+                dep = {"packageRoot": e["PkgRoot"] + "/dependent", "dependencyDataTypes": [], "resources": [],
+                       "inputDataTypes": [{"record": {"name": "DepUser", "namespace": "dep", "sourceFile": "verif-dependent", "doc": "", "includes": [], "fields": fields}}]}
+                depdir = os.path.join(scdir, "dep-%s-%s" % (gen, e["Dir"]))
+                os.makedirs(depdir, exist_ok=True)
+                depman = os.path.join(depdir, "manifest.json")
+                json.dump(dep, open(depman, "w"))
+                env = D.goenv()
+                env["VERIF_MAPROT"] = str(rots[0])
+                t = os.path.join(target0, "dependent")
+                os.makedirs(t, exist_ok=True)
+                p = subprocess.run([genbin, depman, t, written], cwd=gdir, env=env, stdout=subprocess.PIPE, stderr=subprocess.STDOUT, text=True, timeout=600)
+                res["runs"] += 1
+                res["dependent"] = True
+                if p.returncode != 0:
+                    res["fails"].append(("dependent", "generating a schema set that depends on this one through its written manifest exits %d: %s" % (p.returncode, norm_gen_msg(p.stdout))))
+                rmtree(depdir)
+        except (OSError, ValueError) as x:
+            res["fails"].append(("dependent", "cannot prepare the dependent schema set: %s" % x))
     return res
 
 
